@@ -7,9 +7,9 @@ CONSTANTS
   FixedPort = TRUE
   CallCfg <- G2udp
   ReplyClasses <- AllClasses
-  StrayClasses = {}
+  StrayClasses <- StrayCls
   MaxReplies = 2
-  MaxStray = 0
+  MaxStray = 2
   MaxEnter = 1
   MaxDelay = 3
   PeerFaults <- Faults2
@@ -19,6 +19,7 @@ CONSTANTS
   RearmPerRead = FALSE
   NoCloseOnError = FALSE
   RearmAfterConnect = FALSE
+  UdpStrays = "dropped"
 CHECK_DEADLOCK FALSE
 CONSTRAINT HighWater
 POSTCONDITION Report
